@@ -2082,10 +2082,5 @@ func (ts *Service) stopTask(id string) {
 
 // Save last error from task.
 func (ts *Service) saveLastError(id string, errStr string) error {
-	task, err := ts.tasks.Get(id)
-	if err != nil {
-		return err
-	}
-	task.Error = errStr
-	return ts.tasks.Replace(task)
+	return ts.tasks.SetError(id, errStr)
 }
